@@ -268,6 +268,19 @@ func Apply(dialect string, m *gm.Schema, e EditRef) ([]string, error) {
 		}
 		c.Null = !c.Null
 		return []string{p + "ModifyColumn(" + e.Obj + ",null)"}, nil
+	case "drop-opclass", "retype-drop-opclass":
+		for i := range t.Indexes {
+			if t.Indexes[i].Name == e.Obj && len(t.Indexes[i].Parts) == 1 {
+				t.Indexes[i].Parts[0].OpClass = ""
+				if e.Kind == "drop-opclass" {
+					return nil, nil
+				}
+				c := t.Col(t.Indexes[i].Parts[0].Col)
+				c.Type = e.Arg
+				return []string{p + "ModifyColumn(" + c.Name + ",type)"}, nil
+			}
+		}
+		return nil, fmt.Errorf("harness: %s %+v", e.Kind, e)
 	case "modify-type":
 		c, err := col()
 		if err != nil {
